@@ -442,6 +442,22 @@ def check(ctx):
                         if any("SystemExit" in unparse(e) and not pol for e, pol in fs):
                             fin_ok = True
     ctx.ob("R5", f"{MN}:main_xonsh", "an exception other than SystemExit recorded in exc_info sets a non-zero exit code", fin_ok, key="main|exception-exit-code")
+    # ... and nothing on that branch replaces it by a value that can be 0 for the operating system: the status the process
+    # ends with is the code modulo 256, so a code taken from a runtime value (an alias returning 256, -256 ...) can read 0
+    runtime = []
+    for n in ast.walk(mx):
+        if isinstance(n, ast.Try) and n.finalbody:
+            for m in ast.walk(ast.Module(body=n.finalbody, type_ignores=[])):
+                if isinstance(m, ast.Assign) and unparse(m.targets[0]) in retvars:
+                    for node in mcfg.nodes_of(m):
+                        fs = [dtable.normalise(e, pol) for e, pol in facts_at(mcfg, node)]
+                        if any("SystemExit" in unparse(e) and not pol for e, pol in fs):
+                            v = m.value
+                            const_nz = isinstance(const_value(v), int) and not isinstance(const_value(v), bool) and const_value(v) != 0
+                            or_nz = isinstance(v, ast.BoolOp) and isinstance(v.op, ast.Or) and isinstance(const_value(v.values[-1]), int) and const_value(v.values[-1]) not in (0, False) and all("%" in unparse(x) or isinstance(x, ast.Constant) for x in v.values[:-1])
+                            if not (const_nz or or_nz):
+                                runtime.append(m)
+    ctx.ob("R5", f"{MN}:main_xonsh", "on the exception branch the exit code is a non-zero constant (or `<x % 256> or <non-zero>`), never a bare runtime value", not runtime, key="main|exception-exit-code-from-runtime-value", where=loc(runtime[0]) if runtime else loc(mx), detail=f"`{short(runtime[0], 60)}`: sys.exit(256) is exit status 0" if runtime else None)
     fired = {unparse(k.value) for c in calls_in(mx) if (call_name(c) or "").endswith("on_exit.fire") for k in c.keywords if k.arg == "exit_code"}
     ok = len(retvars) == 1 and fired <= retvars and bool(fired)
     ctx.ob("R5", f"{MN}:main_xonsh", "main_xonsh returns the computed exit code", ok, key="main|returns-exit-code")
@@ -476,5 +492,5 @@ META = {
     "Python's own and/or evaluation and real exit codes are trusted.",
     "note": "Decides the listed structural clauses, not the behaviour. Oracle rows are written from the property "
     "statement and docs/error_handling.rst ('regardless of chain context').",
-    "more": 'Also decided: every first CommandPipeline.end() reaches the per-command raise decision on every normal path, also for a command that could not be started.',
+    "more": 'Also decided: every first CommandPipeline.end() reaches the per-command raise decision on every normal path, also for a command that could not be started. On the exception branch of main_xonsh the exit code is a non-zero constant, never a runtime value that can read 0 modulo 256.',
 }
